@@ -113,4 +113,13 @@ theorem minmaxLoop_spec (max : Nat) :
         rw [ih (count + 1) m (by intro h; have := hm h; omega) hle hq]
         rw [mmSpecFrom_cons max count m x xs hle]
 
+/-- `lyd_validate_minmax` = plain counting (see `Props.C02.minmax_correct`) -/
+theorem minmaxCheck_spec (min max : Nat) (insts : List (DNode × Nat)) (hc : max = 0 ∨ min ≤ max) :
+    minmaxCheck min max insts =
+      if min ≠ 0 ∧ insts.length < min then .tooFew
+      else if h : max ≠ 0 ∧ max < insts.length then .tooMany (insts[max]'h.2)
+      else .ok := by
+  rw [minmaxCheck_eq, minmaxLoop_spec max insts 0 min (by omega) (by omega) (by omega)]
+  simp only [mmSpecFrom, Nat.zero_add, Nat.zero_le, and_true, Nat.sub_zero]
+
 end LyModel.Valid
